@@ -44,6 +44,8 @@ class SymBytesIO:
         return len(b)
 
     def getvalue(self):
+        if all(isinstance(x, builtins.int) and not getattr(x, "_vf_sym", False) for x in self.buf):
+            return builtins.bytes(self.buf)  # nothing symbolic was written: exactly what io.BytesIO returns
         return SymBytes(self.buf)
 
     def getbuffer(self):
@@ -454,6 +456,40 @@ def b64decode(s, altchars=None, validate=False):
             raise Unsupported("b64decode inner padding")
         out += bs[: 3 - pad]
     return SymBytes(out)
+
+
+_SINGLETONS = {}
+
+
+def _single(name, factory):
+    if name not in _SINGLETONS:
+        _SINGLETONS[name] = factory()
+    return _SINGLETONS[name]
+
+
+def rebind(g, kind, first):
+    """bind the models in the namespace `g` of a module that is being imported (called from the injected __vf_rebind__ statements)"""
+    import base64 as _b64
+    import io as _io
+    import json as _json
+    import keyword as _kw
+    import os as _os
+    import re as _re
+
+    if kind == "core":
+        if first:
+            g["int"], g["float"], g["str"], g["bytes"] = IntShim, FloatShim, StrShim, BytesShim
+        from .symjson import JsonShim
+
+        table = {"BytesIO": (_io.BytesIO, lambda: BytesIOShim), "struct": (_struct, lambda: _single("struct", StructShim)), "json": (_json, lambda: _single("json", JsonShim)),
+                 "math": (_math, lambda: _single("math", MathShim)), "b64encode": (_b64.b64encode, lambda: b64encode), "b64decode": (_b64.b64decode, lambda: b64decode)}  # fmt: skip
+    else:
+        from . import symre
+
+        table = {"re": (_re, lambda: _single("re", symre.ReShim)), "keyword": (_kw, lambda: _single("keyword", symre.KwShim)), "os": (_os, lambda: _single("os", symre.OsShim))}
+    for name, (real, make) in table.items():
+        if g.get(name) is real:
+            g[name] = make()
 
 
 def install_core(mod):
